@@ -26,6 +26,12 @@ def optNat (s : String) : Option (Option Nat) :=
     | some n => if n ≤ usizeMax then some (some n) else none
     | none => none
 
+/-- A limit field of REQ / RESP ops: `d` = left as `new()` made it, a leading `D` = constructed by
+`Default::default()` (which is `new()`), `D` alone = and left as made; `dflt` is the constructor's value. -/
+def optLim (dflt : Option Nat) (s : String) : Option (Option Nat) :=
+  if s = "d" || s = "D" then some dflt
+  else if s.startsWith "D" then optNat (s.drop 1).toString else optNat s
+
 def herr : HErr → String
   | .HeaderLineTooLong => "HeaderLineTooLong" | .HeaderLineInvalidText => "HeaderLineInvalidText"
   | .HeaderLineMissingColon => "HeaderLineMissingColon"
@@ -208,16 +214,16 @@ def okOrErr (r : Option Bytes) : String := match r with | some o => "OK " ++ hex
 def step (toks : List String) : String :=
   match toks with
   | ["REQ", tree, ov, rl, hl, mx, ds] =>
-    match optNat rl, optNat hl, optNat mx, (ds.splitOn "|").mapM unhex with
+    match optLim (defaultCfg true ⟨true⟩).rl rl, optLim (defaultCfg true ⟨true⟩).hl hl, optLim (defaultCfg true ⟨true⟩).max mx, (ds.splitOn "|").mapM unhex with
     | some rl, some hl, some mx, some ds =>
       (reqOp { rl := rl, hl := hl, max := mx, ov := ov = "1", tree := ⟨tree = "1"⟩ } ds).1
     | _, _, _, _ => "bad-op"
   | ["RESP", tree, ov, hl, ds] =>
-    match optNat hl, (ds.splitOn "|").mapM unhex with
+    match optLim none hl, (ds.splitOn "|").mapM unhex with
     | some hl, some ds => (respOp { hl := hl, ov := ov = "1", tree := ⟨tree = "1"⟩ } ds).1
     | _, _ => "bad-op"
   | ["RTREQ", tree, ov, rl, hl, mx, ds] =>
-    match optNat rl, optNat hl, optNat mx, (ds.splitOn "|").mapM unhex with
+    match optLim (defaultCfg true ⟨true⟩).rl rl, optLim (defaultCfg true ⟨true⟩).hl hl, optLim (defaultCfg true ⟨true⟩).max mx, (ds.splitOn "|").mapM unhex with
     | some rl, some hl, some mx, some ds =>
       let cfg : ReqCfg := { rl := rl, hl := hl, max := mx, ov := ov = "1", tree := ⟨tree = "1"⟩ }
       match reqOp cfg ds with
@@ -228,7 +234,7 @@ def step (toks : List String) : String :=
         | some g => first ++ " || OK " ++ hex g ++ " || " ++ (reqOp cfg [g]).1
     | _, _, _, _ => "bad-op"
   | ["RTRESP", tree, ov, hl, ds] =>
-    match optNat hl, (ds.splitOn "|").mapM unhex with
+    match optLim none hl, (ds.splitOn "|").mapM unhex with
     | some hl, some ds =>
       let cfg : RespCfg := { hl := hl, ov := ov = "1", tree := ⟨tree = "1"⟩ }
       match respOp cfg ds with
